@@ -141,12 +141,7 @@ def btree_layout(inp, box_factor):
     shift = [-lo[i] + unit * rr.randrange(0, 48) / 4.0 for i in range(dim)]
     pad = unit * rr.choice([0.25, 1.0, 7.5])
     hash_size = [(hi[i] + shift[i] + pad) * f for i in range(dim)]
-    if dim == 3:
-        # UNCHANGED-tree limitation kept out: HashTable.strides is (n1*n2, n1, 1) where row-major
-        # needs (n1*n2, n2, 1) (legacy.py:302); with more boxes along axis 1 than along axis 2 the
-        # box index runs past the table (IndexError in get_region / add_point).  Equal extents
-        # along axes 1 and 2 are what works (trackpy's own 3-D BTree tests use cubes).
-        hash_size[1] = hash_size[2] = max(hash_size[1], hash_size[2])
+    # (3-D grids need not be cubic: the strides of the legacy hash table were repaired in /repo)
     hash_size = tuple(hash_size)
     rng_data = inp["sr"][0] / 4.0 * f
     box = None if box_factor is None else rng_data * box_factor
